@@ -148,11 +148,11 @@ class HybridCache(_CacheBase):
             otherwise None.
 
         """
-        if key not in self._cache_dict:
-            return None
         with self._cache_lock:
+            if key not in self._cache_dict:
+                return None
             self._access_counts[key] += 1
-        value = self._cache_dict[key]
+            value = self._cache_dict[key]
         if self._allow_cloudpickle and self.shared:
             value = cloudpickle.loads(value)
         return value
